@@ -10,3 +10,4 @@ import Rp2.Props.C12
 #print axioms Rp2.C12.config_accepted_is_valid
 #print axioms Rp2.C12.config_fault_rejected
 #print axioms Rp2.C12.header_column_table_agrees
+#print axioms Rp2.C12.workbook_fault_rejected
